@@ -205,7 +205,7 @@ func RunHTTPStream(route func(i int) http.Handler, c CallSpec, hdr map[string]st
 			in = c.Inputs[idx].Batch()
 			idx++
 		} else if c.CancelAt >= 0 && v.Turns-1 == c.CancelAt {
-			extra = append(extra, [2]string{KCancel, "true"})
+			extra = append(extra, [2]string{KCancel, CancelValue(c.CancelSpelling)})
 		}
 		t = HTTPContinue(route(v.Turns), "", c.Method, in, cursor, callTok, extra, hdr)
 		v.Turns++
